@@ -167,8 +167,19 @@ theorem direct_adjacent_safe_pretty_partial : directOK followPretty = true := di
 /-- non-vacuity: the witness of KF-01 and `{ a; }` respect the slot typing; KF-01's pair is in the exclusion -/
 example : wfVal cxPretty kf01 = true ∧ wfVal cxPretty withoutPos = true ∧ wfVal cxPretty withPos = true := by
   decide +kernel
-example : directSafe .decInt (.lit ".") = false ∧ directSafe (.word 0 0) (.lit ".") = true ∧
-    directSafe (.lit "+") (.lit "+") = false ∧ directSafe (.lit "/") (.regex 3) = false ∧
-    directSafe (.regex 3) (.lit "in") = false ∧ directSafe (.lit ")") (.lit "{") = true := by decide +kernel
+example : directSafe .decInt (mkLit ".") = false ∧ directSafe (.word 0 0) (mkLit ".") = true ∧
+    directSafe (mkLit "+") (mkLit "+") = false ∧ directSafe (mkLit "/") (.regex 3) = false ∧
+    directSafe (.regex 3) (mkLit "in") = false ∧ directSafe (mkLit ")") (mkLit "{") = true := by decide +kernel
+
+/-- what `directOK` says (it is evaluated on bit sets): for all token codes `a`, `b`, if `a` may be directly followed
+by `b` in the follow relation, the pair is `directSafe`, KF-01 or an artefact; and the codes are faithful: every
+table spelling and every signature class has its own code (`tcOfCode (tcCode c) = c` on `tokCodes`) -/
+theorem direct_adjacent_safe_meaning (a b : Nat) (ha : a ∈ tokCodes) (hb : b ∈ tokCodes)
+    (hf : InF followPretty (2 * a) (2 * b)) : okPair (tcOfCode a) (tcOfCode b) = true :=
+  directOK_spec followPretty direct_safe_pretty a b ha hb hf
+
+theorem token_codes_faithful :
+    (tokCodes.all fun c => tcCode (tcOfCode c) == c) = true ∧
+    (litTable.all fun s => litText ((litIdx s).getD 0) == s && (litIdx s).isSome) = true := by decide +kernel
 
 end CalmVerif.Props.C01
